@@ -246,13 +246,13 @@ func newCmap4(cm tables.CmapSubtable4) (cmap4, error) {
 			delta: cm.IdDelta[i],
 		}
 		idRangeOffset := int(cm.IdRangeOffsets[i])
+		if entry.end < entry.start {
+			return nil, errors.New("invalid cmap subtable format 4 segment")
+		}
 
 		// some fonts use 0xFFFF for idRangeOff for the last segment
 		if entry.start != 0xFFFF && idRangeOffset != 0 {
 			// we resolve the indexes
-			if entry.end < entry.start {
-				return nil, errors.New("invalid cmap subtable format 4 segment")
-			}
 			entry.indexes = make([]tables.GlyphID, int(entry.end)-int(entry.start)+1)
 			indexStart := idRangeOffset/2 + i - segCount
 			if indexStart < 0 || len(cm.GlyphIDArray) < 2*(indexStart+len(entry.indexes)) {
